@@ -58,7 +58,7 @@ class HeaderTxHarness(Harness):
         self.lrty_sent = self.inp("lrty_sent", 1)
         self.k = self.inp("k", 2, const=True)
         names = ["credit_use", "ready_when_credit", "tx_order", "dl_flag", "tx_content", "recovery_on_mismatch",
-                 "retry_req", "tx_format"]
+                 "retry_req", "tx_format", "retx_starts"]
         self.v = {n: self.viol(n) for n in names}
         cn = ["two_headers_sent", "retransmit_dl", "retire_then_reuse", "tracked_sent", "mismatch", "retx_two",
               "fifth_header", "held_new_sent", "fresh_after_retry"]
@@ -211,6 +211,17 @@ class HeaderTxHarness(Harness):
             m.d.ss += [retx_active.eq(1), retx_ptr.eq(g_ack), retx_left.eq(n_out), retry_wait.eq(1)]
         with m.Elif(self.lrty_sent):
             m.d.ss += retry_wait.eq(0)
+        # bounded progress of the retransmission: once our LRTY is out, the PHY is ready and the wire is idle, the next owed
+        # header is offered within RETX_START cycles (the statement says "retransmits every unacknowledged header": a
+        # transmitter that forgets the retry altogether breaks it just as one that reorders it)
+        retx_stall = Signal(4, name="g_retx_stall")
+        retx_owed = Signal(name="g_retx_owed")
+        m.d.comb += retx_owed.eq(ok & retx_active & ~retry_wait & ~in_pkt & self.ready)
+        with m.If(retx_owed & (retx_stall != 15)):
+            m.d.ss += retx_stall.eq(retx_stall + 1)
+        with m.Elif(~retx_owed):
+            m.d.ss += retx_stall.eq(0)
+        m.d.comb += self.v["retx_starts"].eq(retx_owed & (retx_stall == RETX_START))
         in_retry = Signal(name="in_retry")
         m.d.comb += in_retry.eq(retx_active)
         m.d.comb += self.a["quiet_retry"].eq(~(in_retry & (is_lgood | is_lbad)) & ~(is_lbad & acc))
@@ -298,6 +309,7 @@ class HeaderTxHarness(Harness):
         return d
 
 
+RETX_START = 8     # cycles allowed between "retransmission possible" and the first word of the retransmitted header
 RETX_K = 32        # the shortest history with two headers in flight and an LBAD landing on the second one's last word
 
 
@@ -306,7 +318,7 @@ def queries(tier):
     f = HeaderTxHarness
     clean = {"ready": 1, "lc_gap": 0, "lc_mask": 0}
     hint = {"*": {"lc_gap": 0, "lc_mask": 0}}
-    ctl = ["credit_use", "ready_when_credit", "tx_order", "dl_flag", "recovery_on_mismatch", "retry_req", "tx_format"]
+    ctl = ["credit_use", "ready_when_credit", "tx_order", "dl_flag", "recovery_on_mismatch", "retry_req", "tx_format", "retx_starts"]
     qs = [Query("bmc_content", f, 20 if quick else 28, layer=dict(clean, k=0), split=False, timeout=3000, asserts=["tx_content"],
                 covers=[], desc="layer as bmc_clean, tracked header = first accepted: its 96 data bits and link control "
                                 "fields on the wire (first transmission and retransmission) equal what the protocol layer queued"),
@@ -322,7 +334,7 @@ def queries(tier):
     if quick:
         # the retransmission clauses need two headers on the wire and an LBAD at any cycle relative to them: deeper than
         # the K=24 of bmc_clean (one process per assertion: dl_flag ~90 s, tx_order ~450 s solver time at K=32)
-        qs.append(Query("bmc_clean_retx", f, RETX_K, layer=clean, timeout=3000, asserts=["tx_order", "dl_flag"], covers=["held_new_sent"],
+        qs.append(Query("bmc_clean_retx", f, RETX_K, layer=clean, timeout=3000, asserts=["tx_order", "dl_flag", "retx_starts"], covers=["held_new_sent"],
                         hints=hint, desc="layer as bmc_clean, deeper: order and delayed flag of (re)transmitted headers"))
     qs.append(Query("cosim", f, 0, kind="cosim", cosim_cycles=200 if quick else 1000))
     return qs
